@@ -229,7 +229,12 @@ func (C11) OnCall(e *sim.Env, c *sim.Call) {
 			e.Count("c11.rejected_fee_only")
 			return
 		}
-		e.Violate("C11", "rejected-tx-leaves-trace/"+c.Meta.MsgType, fmt.Sprintf("DeliverTx(%s)@%d was rejected with code %d but changed state beyond the fee: %v", c.Entry.Label, c.H, c.ResDeliver.Code, briefDiff(d)), c)
+		sig := "rejected-tx-leaves-trace/" + c.Meta.MsgType
+		if c.ResDeliver.Code == 12 && e.Init != nil && e.Init.MaxGas > 0 {
+			// reported as out of gas by the *block* gas meter, which is charged after the message handler ran
+			sig = "rejected-tx-leaves-trace/out-of-block-gas/" + c.Meta.MsgType
+		}
+		e.Violate("C11", sig, fmt.Sprintf("DeliverTx(%s)@%d was rejected with code %d but changed state beyond the fee: %v", c.Entry.Label, c.H, c.ResDeliver.Code, briefDiff(d)), c)
 	}
 }
 
